@@ -118,6 +118,8 @@ type scen struct {
 	Mixed bool `json:"alternating_resolutions,omitempty"`
 	// Batch: the (failing) first write uses the batch writer of the format (SaveSTL / SaveSVG / SaveDXF)
 	Batch bool `json:"first_write_by_the_batch_writer,omitempty"`
+	// First: another first step of the history (with Batch): an exported call that fails or is abandoned
+	First string `json:"first_step,omitempty"`
 }
 
 var work = filepath.Join(vlib.VerifDir, ".work", "c12")
@@ -190,6 +192,33 @@ func (sc scen) body() func() {
 				r2 = render.NewMarchingSquaresUniform(3)
 			case "ms-quadtree-nothing":
 				r2 = render.NewMarchingSquaresQuadtree(3)
+			}
+			if sc.Batch && sc.First != "" {
+				switch sc.First {
+				case "Poly(empty polygon)": // returns an error ("no vertices")
+					render.Poly(sdf.NewPolygon(), sc.Path)
+				case "Poly(triangle)":
+					pl := sdf.NewPolygon()
+					pl.Add(0, 0)
+					pl.Add(1, 0)
+					pl.Add(0, 1)
+					render.Poly(pl, sc.Path)
+				case "NewDXF dropped without Save":
+					d := render.NewDXF(sc.Path)
+					d.Line(&sdf.Line2{{X: 0}, {X: 1, Y: 1}})
+				case "two NewDXF drawings open, both saved":
+					d1, d2 := render.NewDXF(sc.Path), render.NewDXF(sc.Path+".2.dxf")
+					d1.Line(&sdf.Line2{{X: 0}, {X: 1, Y: 1}})
+					d2.Line(&sdf.Line2{{X: 0}, {X: 2, Y: 1}})
+					d1.Save()
+					d2.Save()
+				case "NewSVG dropped without Save":
+					v := render.NewSVG("dropped.svg", "fill:none")
+					v.Line(v2.Vec{}, v2.Vec{X: 1, Y: 1})
+				case "LoadSTL of a missing file":
+					render.LoadSTL("no-such-file.stl")
+				}
+				continue
 			}
 			if sc.Batch {
 				switch sc.Sink {
@@ -390,6 +419,12 @@ func main() {
 	}
 	for _, rn := range []string{"ms-uniform-nothing", "ms-quadtree-nothing"} {
 		scens = append(scens, scen{Sink: "dxf", Renderer: rn, Renders: 1, Plan: none(), Path: filepath.Join(work, "ok-"+rn+".dxf"), Workers: 1, Bound: -1})
+	}
+	// other first steps: exported calls that return an error or are abandoned, then a render of every format
+	for _, first := range []string{"Poly(empty polygon)", "Poly(triangle)", "NewDXF dropped without Save", "two NewDXF drawings open, both saved", "NewSVG dropped without Save", "LoadSTL of a missing file"} {
+		for _, sink := range []string{"dxf", "svg", "stl", "3mf"} {
+			scens = append(scens, scen{Sink: sink, Renderer: "scripted", Items: 3, Renders: 1, Plan: none(), Path: filepath.Join(work, "first-"+sink+".dxf"), Workers: 2, Bound: -1, Then: true, Batch: true, First: first})
+		}
 	}
 	// a lattice whose layers hold exactly one full evaluation batch (100 points), no fault at all
 	for _, w := range []int{1, 2} {
